@@ -9,7 +9,7 @@
 
   Domain restriction (explicit): request heads are split by the strict splitter
   `parseHead`; it is the real parser only on canonical heads (`CanonicalHead`, decidable).
-  Non-canonical input drives the model into `outOfDomain` (no prediction) — never into a
+  (`Expect: 100-continue` is inside the domain: `need100Continue` / `continueSending`.)  Non-canonical input drives the model into `outOfDomain` (no prediction) — never into a
   silent default.
 -/
 import Mhd.Proofs.FramingRefAgree
